@@ -32,12 +32,22 @@ type FuncSpec struct {
 	Lean string `json:"lean"` // Lean name
 }
 
+type RecordSpec struct {
+	Lean   string            `json:"lean"`   // Lean structure name
+	Fields map[string]string `json:"fields"` // accessor method -> "UInt64" | "Bool"
+	Preds  map[string]string `json:"preds"`  // free function taking the record -> field name (Bool)
+}
+
 type Config struct {
 	Namespace string            `json:"namespace"`
 	Uint64    []string          `json:"uint64_types"` // named types whose underlying type is uint64
 	Consts    map[string]string `json:"consts"`       // Go constant -> Lean literal
 	IntConsts map[string]string `json:"int_consts"`   // Go constants of signed/duration type -> Lean Int literal
 	VersionF  []string          `json:"version_fields"`
+	// Records: Go interface/struct types read only through accessor methods (`x, err := v.M()`), modelled as a
+	// Lean structure of plain fields; accessor errors (a malformed tree) are outside the model: the
+	// `if err != nil {…}` that follows an accessor call is dropped (recorded in the trusted base)
+	Records map[string]RecordSpec `json:"records"`
 	Funcs     []FuncSpec        `json:"funcs"`
 }
 
@@ -83,6 +93,9 @@ type fnCtx struct {
 	retTy   string
 	loops   int
 	locals  []string // declared locals in order
+	recVars map[string]string // parameter name -> record type
+	boolLoc map[string]bool   // locals of type Bool
+	errRec  bool              // `err` currently holds the error of a record accessor
 	tmp     int
 	monadic bool
 }
@@ -94,6 +107,61 @@ func (c *fnCtx) isLocal(n string) bool {
 		}
 	}
 	return false
+}
+
+func (c *fnCtx) isBoolExpr(e ast.Expr) bool {
+	switch x := e.(type) {
+	case *ast.ParenExpr:
+		return c.isBoolExpr(x.X)
+	case *ast.Ident:
+		return x.Name == "true" || x.Name == "false" || c.boolLoc[x.Name]
+	case *ast.UnaryExpr:
+		return x.Op == token.NOT
+	case *ast.BinaryExpr:
+		switch x.Op {
+		case token.LAND, token.LOR, token.LSS, token.GTR, token.LEQ, token.GEQ, token.EQL, token.NEQ:
+			return true
+		}
+	case *ast.CallExpr:
+		if fn, ok := x.Fun.(*ast.Ident); ok {
+			for _, r := range cfg.Records {
+				if _, ok := r.Preds[fn.Name]; ok {
+					return true
+				}
+			}
+		}
+	}
+	return false
+}
+
+// recAccessor recognises `v.M()` on a record parameter; returns the Lean expression and the field type
+func (c *fnCtx) recAccessor(e ast.Expr) (string, string, bool) {
+	call, ok := e.(*ast.CallExpr)
+	if !ok || len(call.Args) != 0 {
+		return "", "", false
+	}
+	sel, ok := call.Fun.(*ast.SelectorExpr)
+	if !ok {
+		return "", "", false
+	}
+	b, ok := sel.X.(*ast.Ident)
+	if !ok || c.recVars[b.Name] == "" {
+		return "", "", false
+	}
+	ty, ok := cfg.Records[c.recVars[b.Name]].Fields[sel.Sel.Name]
+	if !ok {
+		fatal(e.Pos(), "record accessor %s not in the whitelist", sel.Sel.Name)
+	}
+	return id(b.Name) + "." + sel.Sel.Name, ty, true
+}
+
+func isErrNotNil(e ast.Expr) bool {
+	b, ok := e.(*ast.BinaryExpr)
+	if !ok || b.Op != token.NEQ {
+		return false
+	}
+	i, ok := b.X.(*ast.Ident)
+	return ok && i.Name == "err" && isNil(b.Y)
 }
 
 func (c *fnCtx) fresh() string { c.tmp++; return fmt.Sprintf("t%d'", c.tmp) }
@@ -222,6 +290,14 @@ func (c *fnCtx) expr(e ast.Expr, binds *[]string, intMode bool) string {
 				return "(if " + l + " ≤ " + r + " then " + l + " else " + r + ")"
 			}
 			return "(if " + l + " ≥ " + r + " then " + l + " else " + r + ")"
+		}
+		// predicate on a record parameter, e.g. HasEth1WithdrawalCredential(validator)
+		if fn, ok := x.Fun.(*ast.Ident); ok && len(x.Args) == 1 {
+			if a, ok := x.Args[0].(*ast.Ident); ok && c.recVars[a.Name] != "" {
+				if f, ok := cfg.Records[c.recVars[a.Name]].Preds[fn.Name]; ok {
+					return id(a.Name) + "." + f
+				}
+			}
 		}
 		// call of a function-typed parameter
 		if fn, ok := x.Fun.(*ast.Ident); ok && c.funVars[fn.Name] {
@@ -404,10 +480,37 @@ func (c *fnCtx) stmts(list []ast.Stmt, ind string, tail string, scope []string) 
 	for i, s := range list {
 		switch x := s.(type) {
 		case *ast.AssignStmt:
+			if len(x.Lhs) == 2 && len(x.Rhs) == 1 {
+				// x, err := v.Accessor()
+				if acc, ty, ok := c.recAccessor(x.Rhs[0]); ok {
+					if e, ok := x.Lhs[1].(*ast.Ident); !ok || (e.Name != "err" && e.Name != "_") {
+						fatal(x.Pos(), "second result of a record accessor must be err")
+					}
+					name := x.Lhs[0].(*ast.Ident).Name
+					c.errRec = true
+					if ty == "Bool" {
+						c.boolLoc[name] = true
+					} else if x.Tok == token.DEFINE {
+						scope = append(scope, name)
+					}
+					emit(fmt.Sprintf("let %s : %s := %s", id(name), ty, acc))
+					continue
+				}
+			}
 			if len(x.Lhs) != 1 || len(x.Rhs) != 1 {
 				fatal(x.Pos(), "multi-assignment unsupported")
 			}
 			name := x.Lhs[0].(*ast.Ident).Name
+			if (x.Tok == token.DEFINE || x.Tok == token.ASSIGN) && c.isBoolExpr(x.Rhs[0]) {
+				var b []string
+				rhs := c.expr(x.Rhs[0], &b, false)
+				for _, l := range b {
+					emit(l)
+				}
+				c.boolLoc[name] = true
+				emit(fmt.Sprintf("let %s : Bool := %s", id(name), rhs))
+				continue
+			}
 			var b []string
 			var rhs string
 			switch x.Tok {
@@ -473,6 +576,26 @@ func (c *fnCtx) stmts(list []ast.Stmt, ind string, tail string, scope []string) 
 			}
 			return out
 		case *ast.IfStmt:
+			if x.Init == nil && isErrNotNil(x.Cond) {
+				// error of a record accessor: outside the model (see RecordSpec); the else branch, if any, stays
+				if !c.errRec {
+					fatal(x.Pos(), "`err != nil` without a preceding record accessor")
+				}
+				var elseStmts []ast.Stmt
+				if x.Else != nil {
+					switch el := x.Else.(type) {
+					case *ast.BlockStmt:
+						elseStmts = el.List
+					case *ast.IfStmt:
+						elseStmts = []ast.Stmt{el}
+					}
+				}
+				cont := append(append([]ast.Stmt{}, elseStmts...), list[i+1:]...)
+				if len(cont) == 0 {
+					fatal(x.Pos(), "control falls off the end")
+				}
+				return append(out, c.stmts(cont, ind, tail, scope)...)
+			}
 			if x.Init != nil {
 				out = append(out, c.stmts([]ast.Stmt{x.Init}, ind, "\x00", scope)...)
 				if as, ok := x.Init.(*ast.AssignStmt); ok && as.Tok == token.DEFINE {
@@ -649,12 +772,18 @@ func translate(repo string, fs FuncSpec) string {
 	if fd == nil {
 		panic(translateError{fmt.Sprintf("function %s.%s not found in %s", fs.Recv, fs.Name, fs.File)})
 	}
-	c := &fnCtx{name: fs.Lean, ptypes: map[string]string{}, funVars: map[string]bool{}}
+	c := &fnCtx{name: fs.Lean, ptypes: map[string]string{}, funVars: map[string]bool{}, recVars: map[string]string{}, boolLoc: map[string]bool{}}
 	var sig []string
 	addParam := func(name, ty string, pos token.Pos) {
 		if ty == "Spec" {
 			c.hasSpec = true
 			c.specVar = name
+			return
+		}
+		if r, ok := cfg.Records[ty]; ok {
+			c.recVars[name] = ty
+			c.ptypes[name] = ty
+			sig = append(sig, "("+id(name)+" : "+r.Lean+")")
 			return
 		}
 		if ty == "func" {
@@ -711,6 +840,8 @@ func translate(repo string, fs FuncSpec) string {
 	mon := c.monadic
 	fuelNeeded := needsFuel[c.name]
 	*c = save
+	c.boolLoc = map[string]bool{}
+	c.errRec = false
 	c.monadic = mon
 	aux = nil
 	body := c.stmts(fd.Body.List, "  ", "", scope)
@@ -881,6 +1012,34 @@ func main() {
 		fmt.Fprintf(&sb, "  %s : %s\n", f, ty)
 	}
 	sb.WriteString("  deriving Repr, Inhabited\n\n")
+	{
+		var rn []string
+		for n := range cfg.Records {
+			rn = append(rn, n)
+		}
+		sort.Strings(rn)
+		for _, n := range rn {
+			r := cfg.Records[n]
+			fmt.Fprintf(&sb, "/-- what the translated functions read of a `%s` (accessor results; accessor errors are outside the model) -/\nstructure %s where\n", n, r.Lean)
+			var fn []string
+			for f := range r.Fields {
+				fn = append(fn, f)
+			}
+			sort.Strings(fn)
+			for _, f := range fn {
+				fmt.Fprintf(&sb, "  %s : %s\n", f, r.Fields[f])
+			}
+			var pn []string
+			for _, f := range r.Preds {
+				pn = append(pn, f)
+			}
+			sort.Strings(pn)
+			for _, f := range pn {
+				fmt.Fprintf(&sb, "  %s : Bool\n", f)
+			}
+			sb.WriteString("  deriving Repr, Inhabited\n\n")
+		}
+	}
 	sb.WriteString(strings.Join(defs, "\n"))
 	sb.WriteString("\nend " + cfg.Namespace + "\n")
 	out := sb.String()
